@@ -67,6 +67,21 @@ interpolated into rich markup). The model is a model of the repaired tree.
 * Further unbounded theorems beyond the per-site laws: `C03_roundtrip` (parse ∘ print = id for every well-formed tree, any unit,
   any blank lines), `C09_evaluator_never_crashes` (scanner invariant: every number token is `[-]digits[.digits]`), `C04_build`
   (the tree builder equals the precedence-climbing reference for any token sequence), `C06_repeat_exact`, `C17_history`.
+* **Simulation walks** (session 3) — two runs in lock-step through every function of the interpreter, for every program, depth,
+  context and state. First form (`Lemmas/Sim.lean`, `exec_sim`): THE SAME code under other option flags and a projected warning
+  list; either the base run ends in an error the instance declares an *escape*, or the projected run's result is the projection of
+  the base run's result (same signal, same error and trace, projected state, filtered output). Instances (`Lemmas/SimInst.lean`),
+  each lifted to `Compiler.compile` by `compile_sim`: `C15_suppress_whole` (suppression = the same compilation with exactly the
+  unknown-command warnings removed), `C15_comments_whole` (comments off = comments on with the REM lines filtered out — programs
+  without IGNORE; the one subtlety is that REM returns a line with comments on and nothing with them off, which only agrees
+  because every result of the class carries NORMAL or no signal: `NormalCls`/`ItemSim`), `C15_flipper_whole` (Flipper on = Flipper
+  off unless that run ends in InvalidCommand). Second form (`Lemmas/Sim2.lean`, `S2.exec_sim`): the projected run executes
+  OTHER code — every command line rewritten by an instance-chosen `lineT`, blocks that are code rewritten recursively (argument
+  groups and IGNORE bodies are text and stay), the bodies of the functions in the environment and the parsed files on disk
+  rewritten the same way (`FRel`), another print log. Instance (`Lemmas/SimPrint.lean`): every plain PRINT line rewritten to PASS —
+  `C18_print_invisible`: the compilation gives the same output, warnings, variables, the same error with the same trace, and an
+  empty print log; `C18_print_text_irrelevant`. These replace the "metamorphic statement validated by correspondence only" notes
+  of C15 and C18 by theorems.
 * `Spec.Prog` (the scoped big-step semantics) exists as the Python reference interpreter `harness/refinterp.py` (the
   construction-side oracle), not as a Lean definition; the C08 refinement theorem is therefore not proved (the algebraic laws
   are). The third sentence of C02 (no DucklingScript-only keyword without a warning) is decided by oracle + correspondence only.
@@ -118,7 +133,7 @@ interpolated into rich markup). The model is a model of the repaired tree.
 
 ### 10.5 Seeded changes (`seeded/<id>/`: patch.diff, demo.py, meta.json) and the checks that catch them
 
-Round 1 (`-a`, `-b`), round 2 (`-c`, `-d`), round 3 (`-e`, `-f`) and round 4 (`-g`, `-h`; the sub-agents were told how the harness
+Round 1 (`-a`, `-b`), round 2 (`-c`, `-d`), round 3 (`-e`, `-f`), round 4 (`-g`, `-h`), round 5 (`-i`, `-j`) and round 6 (`-k`, `-l`); (round 4: the sub-agents were told how the harness
 works — reference interpreter, formal model, tens of thousands of generated programs — and asked for the corner it does not look
 into). Round 3: the sub-agents were asked for changes in shared
 infrastructure that break the property indirectly and only for particular values, orders, nesting shapes, option combinations,
@@ -188,6 +203,23 @@ space of single-line groups (C11-i); loop bodies that change only the TYPE of a 
 imports inside blocks not leaking functions (C07-i, C07-j); non-finite decimals in every evaluating context (C09); grouped START
 whose names climb, the same function text in two folders (C12-i, C12-j); an entry file that is a symbolic link into another
 folder (C15-j); files that sit next to the output path (C19-i).
+
+Round 6 (`-k`, `-l`, all twenty properties, forty changes; the sub-agents got the property text and a scratch worktree only, and were
+asked for two changes per property as different from one another as possible — different mechanism, different trigger kind) was
+first MISSED in six of forty cases. What was learnt: (1) the quick tier's *budget* was the weak point more often than its ideas —
+C02-l (ALTCHAR validated by numeric value: `00065`, `+65`, `1_0`, other scripts' digits) was in the argument pool already but a
+random (command, argument) pair met it about once in five runs; the quick tier now runs every validated command against EVERY
+boundary spelling, and every property's quick tier runs 2–4× its former number of generated cases (all still under 20 s, C09/C10/C14
+under a minute); (2) *what came before in the same process* matters for the plain properties too — C01-l (a mutable default
+argument shared one warnings list between compilations) only shows when a valid script is compiled after a script that warned: C01
+now compiles valid scripts after other compilations (warning, failing, `$`-forms, other options, reused and new Compiler objects);
+(3) *imports inside blocks* were covered for C12 but not for C08 — C08-l (copy-on-write function table: what a file imported inside
+a block defines leaks into the enclosing scope when that scope already had a function): every block kind × import command × what
+the enclosing code and the block defined before × next round; (4) *any bytes at the output path* — C19-k (skip the write when the
+text-mode comparison says "unchanged": a CRLF copy of the same lines, undecodable bytes): the prior output state now includes the
+payload itself, other line endings, prefixes, extensions and non-text bytes; (5) *values that cannot be written out, inside other
+values* — C09-l (the rejected argument is quoted in the message: `DELAY 10^5000,1` → ValueError); (6) *the parenthesis limit at
+small stack limits with an operator at every level* — C14-k (a per-compilation recursion limit derived from the stack limit).
 
 | id | property | change | caught by |
 |---|---|---|---|
